@@ -25,7 +25,7 @@ RULE = (
     "computed), W4 first build_trees, W5 rebuild for other edges of the same bin count (W5f: forced), W6 rebuild binned->unbinned, W7 "
     "CorrFunc.to_file over an older file, W8 CorrData.to_files over older files, W9 Configuration.to_file over an older "
     "file} x every crash point = entry of every mutating file-system call (mkdir, creating/truncating openat, write, "
-    "pwrite64, unlink, rmdir, rename, ftruncate) of the recorded workload (W1, W2, W5 additionally with SIGINT instead of SIGKILL: death by KeyboardInterrupt with stack unwinding), injected with strace "
+    "pwrite64, unlink, rmdir, rename, ftruncate) of the recorded workload (W1 | W2, W5, W7, W9 additionally with SIGINT instead of SIGKILL: death by KeyboardInterrupt with stack unwinding; W7L | W1L, W2L, W5L, W9L: KeyboardInterrupt before every executed line of library code of the step), injected with strace "
     "inject=<call>:signal=KILL:when=<ordinal> under a -P path filter. Oracle (another process): each use of what survived "
     "either raises or behaves like the completed or the never-started step: catalog holds one of the complete record "
     "sets, measurements equal those on fresh caches, files read back as the old or the new object as a whole. "
@@ -39,8 +39,8 @@ ASSUMPTIONS = [
     "sequential pipeline only (YAW_NUM_THREADS=1)",
 ]
 
-QUICK = ("W1", "W2", "W5", "W5f", "W7", "W8", "W2p", "W1b")
-ALL = ("W1", "W2", "W3", "W4", "W5", "W5f", "W6", "W7", "W8", "W9", "W1p", "W2p", "W1b", "W1P")
+QUICK = ("W1", "W2", "W5f", "W7", "W8", "W2p", "W1b", "W7L")
+ALL = ("W1", "W2", "W3", "W4", "W5", "W5f", "W6", "W7", "W8", "W9", "W1p", "W2p", "W1b", "W1P", "W7L", "W9L", "W1L", "W2L", "W5L")
 
 
 def norm(text, base):
@@ -58,7 +58,9 @@ def cases(tier, seed):
         scratch = os.path.join(root, wl)
         os.makedirs(scratch, exist_ok=True)
         base = os.path.join(scratch, "base")
-        if wl == "W1P":  # the main process of a two-worker creation is killed, its children live on for a while
+        if wl.endswith("L"):  # KeyboardInterrupt before every executed line of library code of workload wl[:-1]
+            rel, ops = crashx.record_lines(wl[:-1], base, scratch)
+        elif wl == "W1P":  # the main process of a two-worker creation is killed, its children live on for a while
             rel, ops = crashx.record_parent(wl, base, scratch)
         else:
             rel, ops = crashx.record(wl, base, scratch)
@@ -77,7 +79,7 @@ def cases(tier, seed):
                 out.append(dict(workload=wl, k=k, name=op["name"], ordinal=op["ordinal"], proc=op["proc"],
                                 text=norm(op["text"], base), rel_paths=rel, snap=snap,
                                 total=sum(1 for o in ops if o["mutating"])))
-                if wl in ("W1", "W2", "W5"):
+                if wl in ("W1", "W2", "W5", "W7", "W9") and (tier != "quick" or wl == "W1"):
                     # the same points with SIGINT: the interpreter dies by KeyboardInterrupt and unwinds its stack
                     out.append(dict(out[-1], signal="INT"))
     return out
@@ -264,6 +266,8 @@ def observe(wl, base):
 
 def window(text):
     """Crash window label: the call that was about to happen, with patch numbers and data generalised."""
+    if text.startswith("line("):
+        return "interrupt-between-two-lines"
     t = re.sub(r"patch_\d+", "patch_*", text)
     m = re.match(r"(\w+)\((?:AT_FDCWD<[^>]*>, )?(?:\d+<)?\"?(<B>[^\">,]*)", t)
     if not m:
@@ -279,9 +283,14 @@ def run_case(case):
     if os.path.isdir(case.get("snap", "")):
         shutil.copytree(case["snap"], base, symlinks=True)
     else:  # replay in another process: rebuild the prior state
-        crashx.setup(wl, base)
-    op = dict(name=case["name"], ordinal=case["ordinal"], proc=case.get("proc", 0))
-    if wl == "W1P":
+        crashx.setup(wl[:-1] if wl.endswith("L") else wl, base)
+    op = dict(name=case["name"], ordinal=case["ordinal"], proc=case.get("proc", 0), text=case["text"])
+    if wl.endswith("L"):
+        res = crashx.inject_line(wl[:-1], base, op, d)
+        if res["rc"] == 0 and not res["killed"]:
+            return dict(status="skip", skip_rule="the interrupt was swallowed (raised inside a handler that ignores it), the workload completed")
+        wl = wl[:-1]
+    elif wl == "W1P":
         res = crashx.inject_parent(wl, base, op, d)
     else:
         res = crashx.inject(wl, base, case["rel_paths"], op, d, sig=case.get("signal", "KILL"))
@@ -291,6 +300,9 @@ def run_case(case):
             a = ""  # the crash point "k-th mutating call of the writer process" is compared by call name only
         return a
 
+    if case.get("signal") == "INT" and not res["killed"] and res["rc"] == 0:
+        # the interrupt arrived inside a C library call that swallows it (HDF5 callbacks): the workload ran to completion
+        return dict(status="skip", skip_rule="SIGINT swallowed inside a C library call, the workload completed")
     if not res["matched"] or args_of(norm(res["tail"], base)) != args_of(case["text"]):
         raise RuntimeError(f"kill did not land on the recorded operation: wanted {case['text']}, got {res}")
     problems = observe(wl, base)
@@ -312,7 +324,7 @@ def run_case(case):
     if problems:
         w = window(case["text"])
         out.update(status="violation", violations=[dict(
-            signature=f"C08/{wl}/{what}/before:{w}" + ("/SIGINT" if case.get("signal") == "INT" else ""),
+            signature=f"C08/{case['workload']}/{what}/before:{w}" + ("/SIGINT" if case.get("signal") == "INT" else ""),
             what=f"{wl}: process killed before operation {case['k']}/{case['total']} ({case['text'][:100]}): {detail}",
             detail=dict(case=case)) for what, detail in problems])
     return out
